@@ -157,26 +157,29 @@ func (gp *GenginePool) getGengine() (*gengineWrapper, error) {
 	for {
 		gp.getEngineLock.Lock()
 		//check if there has enough resource in pool
+		//the length is read under the list's own lock: putGengineLocked appends concurrently
+		gp.runningLock.Lock()
 		numFree := len(gp.freeGengines)
 		if numFree > 0 {
-			gp.runningLock.Lock()
 			gw := gp.freeGengines[0]
 			gp.freeGengines = gp.freeGengines[1:]
 			gp.runningLock.Unlock()
 			gp.getEngineLock.Unlock()
 			return gw, nil
 		}
+		gp.runningLock.Unlock()
 
 		//check if there has addition resource
+		gp.additionLock.Lock()
 		numAddition := len(gp.additionGengines)
 		if numAddition > 0 {
-			gp.additionLock.Lock()
 			gw := gp.additionGengines[0]
 			gp.additionGengines = gp.additionGengines[1:]
 			gp.additionLock.Unlock()
 			gp.getEngineLock.Unlock()
 			return gw, nil
 		}
+		gp.additionLock.Unlock()
 
 		gp.getEngineLock.Unlock()
 	}
